@@ -68,36 +68,46 @@ func (r *AmqpReader) readFrame() (frame frame, err error) {
 	}
 
 	switch typ {
-	case frameMethod:
-		if frame, err = r.parseMethodFrame(channel, size); err != nil {
-			return
-		}
-
-	case frameHeader:
-		if frame, err = r.parseHeaderFrame(channel, size); err != nil {
-			return
-		}
-
-	case frameBody:
-		if frame, err = r.parseBodyFrame(channel, size); err != nil {
-			return nil, err
-		}
-
-	case frameHeartbeat:
-		if frame, err = r.parseHeartbeatFrame(channel, size); err != nil {
-			return
-		}
-
+	case frameMethod, frameHeader, frameBody, frameHeartbeat:
 	default:
 		return nil, ErrFrame
 	}
 
-	if _, err = io.ReadFull(r.R, scratch[:1]); err != nil {
+	// Take the whole payload and the frame-end octet off the stream before the
+	// payload is parsed: a frame then always consumes size+8 octets, whatever
+	// its payload turns out to hold, and a payload that cannot be parsed or is
+	// not reported does not disturb the frames that follow it.
+	var rest []byte
+	if rest, err = readExactly(r.R, int64(size)+1); err != nil {
 		return nil, err
 	}
 
-	if scratch[0] != frameEnd {
+	if rest[size] != frameEnd {
 		return nil, ErrFrame
+	}
+
+	payload := &AmqpReader{bytes.NewReader(rest[:size])}
+
+	switch typ {
+	case frameMethod:
+		frame, err = payload.parseMethodFrame(channel, size)
+
+	case frameHeader:
+		frame, err = payload.parseHeaderFrame(channel, size)
+
+	case frameBody:
+		frame, err = payload.parseBodyFrame(channel, size)
+
+	case frameHeartbeat:
+		frame, err = payload.parseHeartbeatFrame(channel, size)
+	}
+
+	if err != nil {
+		if _, ok := err.(*Error); !ok {
+			// the payload ended before its contents did: not the end of the stream
+			err = ErrSyntax
+		}
+		return nil, err
 	}
 
 	return
